@@ -13,6 +13,17 @@ Definition xspans : Type := list (span unit).
 Definition region : Type := list (span xspans).
 Definition rect : Type := (Z * Z * Z * Z)%type.   (* x1, y1, x2, y2 *)
 
+(* what the fuelled loops return when the fuel runs out: one span [2^32, -2^32), which no C int
+   can hold.  For well-formed operands this never happens (or/and/sub_loop_total); for any other
+   input it makes the exhaustion visible in the extracted model instead of a normal-looking region. *)
+Definition POISON_S : Z := 4294967296.
+Definition POISON_E : Z := -4294967296.
+Definition poison {A} (dest : list (span A)) : list (span A) :=
+  match dest with
+  | (_, _, da) :: _ => [(POISON_S, POISON_E, da)]
+  | [] => []        (* with an empty destination every loop returns in its first step *)
+  end.
+
 Section Level.
   Variable A : Type.
   Variable a_eqb : A -> A -> bool.            (* sraSpanListEqual on the payloads *)
@@ -75,7 +86,9 @@ Section Level.
     | (ss, se, sa) :: sr =>
         match or_loop (or_fuel dest src) [] dest ss se sa sr with
         | Some r => r
-        | None => dest     (* unreachable: or_loop_total *)
+        | None => [(POISON_S, POISON_E, sa)]     (* out of fuel: unreachable for well-formed operands
+                                                    (or_loop_total); a span no C int can hold, so that
+                                                    the correspondence check sees it on any other input *)
         end
     end.
 
@@ -108,7 +121,7 @@ Section Level.
   Definition span_and (dest src : list (span A)) : list (span A) * bool :=
     let r := match and_loop (and_fuel dest src) [] dest src with
              | Some r => r
-             | None => dest   (* unreachable: and_loop_total *)
+             | None => poison dest   (* out of fuel: unreachable for well-formed operands (and_loop_total) *)
              end in
     (r, match r with [] => false | _ => true end).
 
@@ -141,7 +154,7 @@ Section Level.
   Definition span_sub (dest src : list (span A)) : list (span A) * bool :=
     let r := match sub_loop (sub_fuel dest src) [] dest src with
              | Some r => r
-             | None => dest   (* unreachable: sub_loop_total *)
+             | None => poison dest   (* out of fuel: unreachable for well-formed operands (sub_loop_total) *)
              end in
     (r, match r with [] => false | _ => true end).
 
